@@ -125,7 +125,7 @@ theorem tailUser_At {buf : Str} {off : Nat} (pk0 : Packet) (c : ConnectParams)
 /-- well-formedness of the will block -/
 def WFWill (ver : Nat) (mods : Mods) (c : ConnectParams) : Prop :=
   wfStr c.willTopic ∧ wfBin c.willPayload ∧
-  (ver = 5 → WFProps c.willProperties ∧ propsBodyLen tWillProperties mods 0 c.willProperties ≤ maxVBI)
+  (ver = 5 → WFProps c.willProperties ∧ propsBodyLenC tWillProperties mods 0 c.willProperties ≤ maxVBI)
 
 theorem tailWill_At {buf : Str} {off : Nat} (pk0 : Packet) (ver : Nat) (mods : Mods) (c : ConnectParams)
     (hfw : pk0.connect.willFlag = c.willFlag) (hwp0 : pk0.connect.willProperties = {})
@@ -154,7 +154,7 @@ theorem tailWill_At {buf : Str} {off : Nat} (pk0 : Packet) (ver : Nat) (mods : M
       have h' : At buf off (propsEncode tWillProperties mods 0 c.willProperties ++
           (encodeBytes c.willTopic ++ (encodeBytes c.willPayload ++ (segUser c ++ segPass c)))) := by
         simpa [segWill, hc, hv', List.append_assoc] using h
-      have e1 := decodePropsAt_At (name := "ErrMalformedWillProperties") h' hwf hlen
+      have e1 := decodePropsAt_AtC (name := "ErrMalformedWillProperties") h' hwf hlen
       have h1 := h'.step
       have e2 := decodeString_At h1 hwt
       have h2 := h1.step_bytes
@@ -195,7 +195,7 @@ def WFConnect (pk : Packet) : Prop :=
   (pk.connect.willFlag = true → WFWill pk.protocolVersion pk.mods pk.connect) ∧
   (pk.connect.usernameFlag = true → wfBin pk.connect.username) ∧
   (pk.connect.passwordFlag = true → wfBin pk.connect.password) ∧
-  (pk.protocolVersion = 5 → WFProps pk.properties ∧ propsBodyLen 1 pk.mods 0 pk.properties ≤ maxVBI)
+  (pk.protocolVersion = 5 → WFProps pk.properties ∧ propsBodyLenC 1 pk.mods 0 pk.properties ≤ maxVBI)
 
 /-- what a CONNECT carries: the reserved flag bit is written as 0; will topic, payload and properties
     only with the will flag; user name and password only with their flags -/
@@ -238,7 +238,7 @@ theorem tailProps_At (pk : Packet) {buf : Str} {off : Nat} (pk0 : Packet)
     have h' : At buf off (propsEncode 1 pk.mods 0 pk.properties ++ (encodeBytes pk.connect.clientIdentifier ++
         (segWill pk.protocolVersion pk.mods pk.connect ++ (segUser pk.connect ++ segPass pk.connect)))) := by
       simpa [segRest, hv'] using h
-    have e1 := decodePropsAt_At (name := "ErrMalformedProperties") h' hwfp hlen
+    have e1 := decodePropsAt_AtC (name := "ErrMalformedProperties") h' hwfp hlen
     have h1 := h'.step
     have e2 := decodeString_At h1 hcid
     have h2 := h1.step_bytes
